@@ -351,7 +351,7 @@ def run(ctx, anchors=None):
         detail = "%s -> n+%s; %s -> %s" % (c0, off, c1, b1)
     ctx.inst(ok3, "R07.3", "push_int64", pi.loc(), "push_int64: -1,1..16 -> n + (OP_1-1); 0 -> OP_0; else serialized number",
              "push_int64 maps small integers as `%s`; expected -1,1..16 -> n+%d and 0 -> OP_0" % (detail, E["OP_1"] - 1))
-    ctx.inst(single_rejected == [(1, 16), (129, 129)] and single_other == ["eq(opcode, m:size(data))"] and empty_ret == ["eq(opcode, 0)"], "R07.3", "judge-single-byte", judge.loc(),
+    ctx.inst(single_rejected == [(1, 16), (129, 129)] and single_other in (["eq(opcode, m:size(data))"], ["eq(opcode, 1)"]) and empty_ret == ["eq(opcode, 0)"], "R07.3", "judge-single-byte", judge.loc(),
              "CheckMinimalPush rejects single bytes 1..16 and 0x81 (must be OP_1..OP_16 / OP_1NEGATE); an empty push must be OP_0",
              "CheckMinimalPush rejects the single bytes %s (expected 1..16 and 0x81), judges other single bytes by %s and the empty push by %s" % (single_rejected, single_other, empty_ret))
     opstep = fb.fn("StepScript", file="script/interpreter.cpp")
